@@ -178,9 +178,9 @@ export function pool() {
 const cap = (xs, n) => (xs.length > n ? xs.slice(0, n) : xs);
 
 // representative members (as vexprs) of a spec; small lists
-export function members(prog, t, depth = 3) {
+export function members(prog, t, depth = 3, path = []) {
   if (depth <= 0) return [];
-  const R = (x) => members(prog, x, depth - 1);
+  const R = (x) => members(prog, x, depth - 1, path);
   switch (t.k) {
     case "prim":
       switch (t.name) {
@@ -296,13 +296,16 @@ export function members(prog, t, depth = 3) {
       return cap(out, 8);
     }
     case "union":
-      return cap(t.m.flatMap((x) => cap(R(x), 3)), 8);
+      return cap(t.m.flatMap((x) => cap(members(prog, x, depth, path), 3)), 10);
     case "inter": {
       // members of the first operand; callers filter by the reference anyway
       return cap(t.m.flatMap((x) => cap(R(x), 3)), 8).concat(mergeObjects(t.m.map((x) => R(x)[0]).filter(Boolean)));
     }
-    case "ref":
-      return members(prog, prog.unfold(t), depth - 1);
+    case "ref": {
+      // names do not consume depth (only structure does); a recursive name is unfolded at most twice on a path
+      if (path.filter((n) => n === t.name).length >= 2) return [];
+      return members(prog, prog.unfold(t), depth, [...path, t.name]);
+    }
     default:
       return [];
   }
